@@ -22,7 +22,7 @@ from fractions import Fraction
 from harness import core
 
 MANIFEST_ENTRY = {
-    "text": "Lean theorems over an executable model of the summary aggregation: C14_partial (for every program list without the two reserved names and every world the real code accepts, every simulation count, both retention settings and every enumeration order of every directory scan, the run completes and both summary tables are a permutation of one row per (program, simulation) computed from that pair's own files), guard_exact / C14_rejected (the run raises exactly when some pair wrote a timeseries / emissions / estimate file without data rows), runAll_closed_form, once_each, own_files_only, perm_invariant, retention_invariant, estimate_floor, estJoin_perm_invariant, cost_ratios, cost_once_each, concrete_mit_cell / concrete_cost_cell / cost_ratios_concrete (the two cost columns are the pair's own sum of mitigated emissions and sum of daily cost), batch_sizes_sum, batch_sizes_le_five, batch_sims_eq_range, yearly_shares_complete / window_complete / C14_yearly_partial (the yearly shares of frames of closed records add up to their values, leap years included), year_length / feb_length (calendar facts of the model's ordinals), genAll_frame / legacy_rows_preserved (rows of earlier batches are carried over unchanged and new rows do not depend on them), runInFolder_eq_runAll / C14_history / uncleared_folder_keeps_stale_rows (run-history level: initialize_outputs clears the folder, so after any history of runs from any prior folder state the tables hold exactly the last run's pairs; without the clean-up every old row survives). C14_counterexample, C14_counterexample_logs, C14_counterexample_zero_rows refute the unrestricted statement (program named kept..., program named Logs, a file without rows); C14_yearly_counterexample refutes share completeness for open-ended records. The model is tied to the real SimulationManager batch loops (debug and multiprocessing), SummaryOutputManager, summary_outputs, summary_output_helpers, summary_output_mapper and batch_simulations by running them over generated program folders with os.scandir permuted independently per call and comparing both summary files and the folder contents after every batch and the cost summary at the end with the compiled model driven by the recorded listings (single runs through the real initialize_outputs and histories of two or three runs into the same output folder, the model keeping its folder state), and with the theorem-level run function on the same world; a direct oracle recomputes every statistic from the pair's own generated data and re-runs every world under a second enumeration order.",
+    "text": "Lean theorems over an executable model of the summary aggregation: C14_partial (for every program list without the two reserved names and every world the real code accepts, every simulation count, both retention settings and every enumeration order of every directory scan, the run completes and both summary tables are a permutation of one row per (program, simulation) computed from that pair's own files), guard_exact / C14_rejected (the run raises exactly when some pair wrote a file the statistics reject; for the mapper's statistics an estimate file without data rows), runAll_closed_form, once_each, own_files_only, perm_invariant, retention_invariant, estimate_floor, estJoin_perm_invariant, cost_ratios, cost_once_each, concrete_mit_cell / concrete_cost_cell / cost_ratios_concrete (the two cost columns are the pair's own sum of mitigated emissions and sum of daily cost), batch_sizes_sum, batch_sizes_le_five, batch_sims_eq_range, yearly_shares_complete / window_complete / C14_yearly_partial (the yearly shares of frames of closed records add up to their values, leap years included), year_length / feb_length (calendar facts of the model's ordinals), genAll_frame / legacy_rows_preserved (rows of earlier batches are carried over unchanged and new rows do not depend on them), contribution_measured / contribution_same_type / contribution_fallback / fallback_is_not_mean_of_type_means (extrapolation of the estimate to unmeasured sites: own type's measured average, else the average over all measured sites, which is not the mean of the type means), runInFolder_eq_runAll / C14_history / uncleared_folder_keeps_stale_rows (run-history level: initialize_outputs clears the folder, so after any history of runs from any prior folder state the tables hold exactly the last run's pairs; without the clean-up every old row survives). C14_counterexample, C14_counterexample_logs, C14_counterexample_zero_rows refute the unrestricted statement (program named kept..., program named Logs, a file without rows); C14_yearly_counterexample refutes share completeness for open-ended records. The model is tied to the real SimulationManager batch loops (debug and multiprocessing), SummaryOutputManager, summary_outputs, summary_output_helpers, summary_output_mapper and batch_simulations by running them over generated program folders with os.scandir permuted independently per call and comparing both summary files and the folder contents after every batch and the cost summary at the end with the compiled model driven by the recorded listings (single runs through the real initialize_outputs and histories of two or three runs into the same output folder, the model keeping its folder state), and with the theorem-level run function on the same world; a direct oracle recomputes every statistic from the pair's own generated data and re-runs every world under a second enumeration order.",
     "design_ref": "DESIGN.md 5.14",
     "note": "trusted: Lean kernel + propext/Classical.choice/Quot.sound; the hand-written model (tied by sampled correspondence, not proof); harness adapter and generators; pandas read_csv/to_csv, merge, groupby and NumPy's percentile as reference semantics (the percentile is an uninterpreted function of the column in the model and is evaluated with NumPy on the column the model names); numbers restricted to a grid on which float arithmetic is exact (CSV float round-trip drift of non-dyadic values is outside the model); row order inside a summary file and the Summary Files switches are not modelled (one world per switch setting is compared per run); a rejected file stops the real run inside a call while the model only flags the call",
     "technique": "Lean 4 closed-form/permutation proofs over a directory-listing model + differential correspondence with the real aggregation code under permuted os.scandir + direct recomputation oracle",
@@ -465,6 +465,8 @@ def parse_val(tok):
         return pct(json.loads(col), int(q))
     if tok == "div0":
         return "div0"
+    if tok == "nan":
+        return None  # NaN is written as an empty cell
     a, b = tok.split("/")
     return Fraction(int(a), int(b))
 
@@ -675,16 +677,20 @@ def expected_rows(world, p, s):
     f = world["files"]["%s|%d" % (p, s)]
     ts = f["ts"]
     col = lambda i: [r[i] for r in ts]  # noqa: E731
-    mean = lambda c: Fraction(sum(c), len(c))  # noqa: E731
+    # a file without rows: mean and percentile are NaN (an empty cell) in the Timeseries Summary and 0 in
+    # the Emissions Summary (missing cells are filled with 0 there)
+    mean = lambda c, empty=None: Fraction(sum(c), len(c)) if c else empty  # noqa: E731
+    opct = lambda c, q, empty=None: pct(c, q) if c else empty  # noqa: E731
     e, m, n, c = col(0), col(1), col(2), col(3)
-    ts_row = [mean(e), mean(m), mean(n), pct(e, 95), pct(m, 95), pct(n, 95), pct(e, 5), pct(m, 5), pct(n, 5),
-              mean(c), Fraction(sum(c)), pct(c, 95), pct(c, 5)]
+    ts_row = [mean(e), mean(m), mean(n), opct(e, 95), opct(m, 95), opct(n, 95), opct(e, 5), opct(m, 5), opct(n, 5),
+              mean(c), Fraction(sum(c)), opct(c, 95), opct(c, 5)]
     em = f["emis"]
     tv = [r[1] for r in em]
     tr = [r[4] for r in em]
     em_row = [Fraction(sum(r[0] for r in em)), Fraction(sum(tv)), Fraction(sum(r[2] for r in em)),
               Fraction(sum(r[1] for r in em if r[3])), Fraction(sum(r[1] for r in em if not r[3])),
-              mean(tr), pct(tr, 95), pct(tr, 5), mean(tv), pct(tv, 95), pct(tv, 5)]
+              mean(tr, Fraction(0)), opct(tr, 95, Fraction(0)), opct(tr, 5, Fraction(0)), mean(tv, Fraction(0)),
+              opct(tv, 95, Fraction(0)), opct(tv, 5, Fraction(0))]
     years = world["years"]
     em_row += [o_yearly([(r[0], D(r[6]), D(r[7])) for r in em], y) for y in years]
     em_row += [o_yearly([(r[1], D(r[5]), D(r[6])) for r in em], y) for y in years]
@@ -738,7 +744,7 @@ def oracle(ctx, world, result, inp, second=None):
     n = world["n"]
     sw = switches(world)
     if result["error"] and result["error"].startswith("gen:"):
-        zero = sorted("%s:%s" % (k, kind) for k, f in world["files"].items() for kind in ("ts", "emis", "est")
+        zero = sorted("%s:%s" % (k, kind) for k, f in world["files"].items() for kind in ("est",)
                       if f.get(kind) == [])
         sig = "C14:crash:zero-row-file" if zero else "C14:crash:summarisation"
         ctx.violate(sig, "gen_summary_outputs raised %s: no summary file has any row of this batch or any later one "
@@ -931,7 +937,7 @@ def run(ctx):
                 "Feb 29 / Mar 1, New-Year straddles and whole-(leap-)year covers on purpose; per-simulation files are written "
                 "with float formatting, extra columns and shuffled column order; worlds with equal program names but other "
                 "years / prices / contents run back to back in both orders and must repeat exactly; histories of 2-3 runs into "
-                "the same output folder through the real initialize_outputs (other n / program sets / retention, junk in "
+                "estimate files with up to five site types, unequal measured counts, types without measured sites; the same output folder through the real initialize_outputs (other n / program sets / retention, junk in "
                 "the folder before the first run) are judged after every run; evaluations = worlds + unit-level protocol lines (file "
                 "names against the real regexes, batch_simulations 0..59 + random, calendar days 1999-12-25..2031-01-09)")
     MULTI_TYPE_P[0] = ctx.pick(0.25, 0.5)
@@ -983,8 +989,9 @@ def run(ctx):
         w = gen_world(ctx.rng, n=ctx.rng.choice([1, 6, 7]), reserved=ctx.rng.choice(["007", "12", "1e3", "0x1F"]),
                       base=ctx.rng.choice(["0", "5", "2024"]))
         worlds.append((w, ctx.rng.randrange(10 ** 6), "numeric-names"))
-    # files without data rows: the real code raises (recorded finding); the model must flag the same worlds
-    for kind in (["ts", "emis", "est"] if not ctx.quick else ["emis", ctx.rng.choice(["ts", "est"])]):
+    # files without data rows: timeseries -> NaN cells, emissions -> a row of zeros, estimate -> the real code
+    # raises (recorded finding) and the model must flag the same worlds
+    for kind in (["ts", "emis", "est"] if not ctx.quick else ["est", ctx.rng.choice(["ts", "emis"])]):
         for _ in range(ctx.pick(1, 3)):
             w = gen_world(ctx.rng, n=ctx.rng.choice([1, 3, 6, 7]))
             cands = sorted(k for k, f in w["files"].items() if f.get(kind) is not None)
@@ -1057,8 +1064,12 @@ def run(ctx):
     replies = drv.run(all_lines)
     for idx, ((w, seed, kind, r1, r2), (start, cnt, tags)) in enumerate(zip(runs, slices)):
         inp = hist_inputs.get(idx) or {"world": w, "perm_seed": seed, "kind": kind}
-        correspond(ctx, w, r1, replies[start:start + cnt], tags, inp)
-        oracle(ctx, w, r1, inp, second=r2)
+        try:
+            correspond(ctx, w, r1, replies[start:start + cnt], tags, inp)
+            oracle(ctx, w, r1, inp, second=r2)
+        except Exception as e:  # an output shape the comparison does not know: broken obligation, go on
+            ctx.broke("comparison / oracle on a %s world" % kind, "%s: %s" % (type(e).__name__, e))
+            ctx.disagree("summary/unreadable-output", inp, "%s: %s" % (type(e).__name__, e), "see world")
         ctx.evaluations += 1
         ctx.traces += 1
         if r1["final"]["ts"] or r1["final"]["emis"]:
